@@ -132,6 +132,10 @@ ObjAgrees(ev, sys) ==
       LET row == ObjDiffRow(ev, sg) IN
       \/ ((\A k \in 1..KY(ev) : row.a[k + 1] = 0) /\ ObjDiff0(ev) = 0)
       \/ Implied(ev, sys, [a |-> row.a, b |-> -sg * ObjDiff0(ev)])
+\* Fourier-Motzkin is doubly exponential in the number of eliminated columns: the exact comparison is made for up to
+\* ExactMax image columns (all models of one or two variables, models of three with at most one free variable);
+\* beyond that the grid alone judges the event
+ExactMax == 4
 ExactProblems(ev) ==
    LET S == StdSys(ev)
        O == OrigSys(ev)
